@@ -1484,24 +1484,46 @@ def _weak_set(B, I, *a):
     return s_
 
 
-def _lru_cache(B, I, *a, **k):
-    """functools.cache / lru_cache: real memoisation on the abstract arguments (so stale answers are visible to the checks)."""
-    def wrap(f):
-        memo = []
+def _make_lru(unbounded):
+    def _lru_cache(B, I, *a, **k):
+        """functools.cache / lru_cache: real memoisation on the abstract arguments (so stale answers are visible to the checks), with the
+        real eviction: least recently used first once `maxsize` entries are held (128 unless given; None = unbounded; functools.cache is
+        unbounded).  The memo is interpreter state: World.restore() puts it back to what it held when the snapshot was taken."""
+        maxsize = None if unbounded else 128
+        direct = len(a) == 1 and not k and isinstance(a[0], (Func, Bound, Builtin))
+        if not direct and not unbounded:
+            ms = a[0] if a else k.get("maxsize", 128)
+            if ms is not None and not (isinstance(ms, int) and not isinstance(ms, bool)):
+                raise Unknown("lru_cache(maxsize=) is not a concrete integer")
+            maxsize = ms
 
-        def cached(I_, *args, **kw):
-            key = Seq(list(args) + [Seq([kk, vv], "tuple") for kk, vv in sorted(kw.items())], "tuple")
-            B.check_hashable(key)
-            for kk, vv in memo:
-                if I_.heq(kk, key):
-                    return vv
-            v = I_.call(f, list(args), kw)
-            memo.append((key, v))
-            return v
-        return Builtin("lru_cache(" + getattr(f, "name", "?") + ")", cached)
-    if len(a) == 1 and not k and isinstance(a[0], (Func, Bound, Builtin)):
-        return wrap(a[0])
-    return Builtin("lru_cache-decorator", lambda I_, f: wrap(f))
+        def wrap(f):
+            memo = []
+            regs = getattr(I.w, "lru_memos", None)
+            if regs is None:
+                regs = I.w.lru_memos = []
+            regs.append(memo)
+
+            def cached(I_, *args, **kw):
+                key = Seq(list(args) + [Seq([kk, vv], "tuple") for kk, vv in sorted(kw.items())], "tuple")
+                B.check_hashable(key)
+                if maxsize == 0:
+                    return I_.call(f, list(args), kw)
+                for i_, (kk, vv) in enumerate(memo):
+                    if I_.heq(kk, key):
+                        memo.append(memo.pop(i_))       # most recently used
+                        return vv
+                v = I_.call(f, list(args), kw)
+                memo.append((key, v))
+                if maxsize is not None and len(memo) > maxsize:
+                    del memo[0]
+                return v
+            bi = Builtin("lru_cache(" + getattr(f, "name", "?") + ")", cached)
+            return bi
+        if direct:
+            return wrap(a[0])
+        return Builtin("lru_cache-decorator", lambda I_, f: wrap(f))
+    return _lru_cache
 
 
 def _partial(B, I, f, *a, **k):
@@ -1680,8 +1702,8 @@ _EXT_FUNCS = {
     "weakref.WeakKeyDictionary": _weak_key_dict,
     "weakref.WeakValueDictionary": _weak_value_dict,
     "weakref.WeakSet": _weak_set,
-    "functools.lru_cache": _lru_cache,
-    "functools.cache": _lru_cache,
+    "functools.lru_cache": _make_lru(False),
+    "functools.cache": _make_lru(True),
     "functools.partial": _partial,
     "itertools.islice": _islice,
     "operator.attrgetter": _attrgetter,
